@@ -188,8 +188,9 @@ def direct_verdicts(months, zero_hour, line, M, fixed, totals):
         # absent peaks still carry the 1e-6 h placeholder duration in the divisor of the monthly rate: a legitimate
         # term of at most 2e-6 h x |monthly rate| on top of floating-point accuracy (1e-8 of the month's absolute energy)
         rate = max([abs(Fraction(q)) for k, _, q in segs if k == "avg"] or [Fraction(0)])
+        f14 = clamped and ipf and pkc > 0 and pkh > 0 and inp["dayC"] == inp["dayH"]
         if abs(e - want) > scale * Fraction(1, 10**8) + rate * Fraction(2, 10**6):
-            if clamped:
+            if f14:
                 v["F14_seen"] = True     # the listed finding: clamped first-month pulse
             else:
                 v["Conserves"] = False
@@ -205,7 +206,7 @@ def direct_verdicts(months, zero_hour, line, M, fixed, totals):
             if kind == "avg":
                 continue
             d = b - a
-            if not (0 < d <= 48 * HU) and not clamped:
+            if not (0 < d <= 48 * HU) and not f14:
                 v["DurationsInRange"] = False
             day = inp["dayC"] if kind == "pkc" else inp["dayH"]
             noon = day * 24 * HU + 12 * HU
@@ -224,7 +225,7 @@ def direct_verdicts(months, zero_hour, line, M, fixed, totals):
         if ipf and pkh > 0:
             win.append((inp["dayH"] * 24 * HU + 13 * HU - inp["dh"] // 2, inp["dayH"] * 24 * HU + 13 * HU + inp["dh"] // 2))
         disjoint = all(0 < a and b < ln for a, b in win) and (len(win) < 2 or win[0][1] < win[1][0] or win[1][1] < win[0][0])
-        if disjoint and not clamped and any(b - a <= 0 for _, a, b in lens):
+        if disjoint and not f14 and any(b - a <= 0 for _, a, b in lens):
             v["StrictlyIncreasingUnlessOverlap"] = False
     return v
 
